@@ -400,42 +400,68 @@ META = {
 
 
 def replay_witness(w, rp):
-    """accounting witnesses are replayed as whole programs under limits"""
+    """accounting witnesses are replayed as whole programs under limits: the native run must (a) leave programs that stay
+    within a budget alone, (b) fail within one check period beyond the budget, (c) report deterministic tick counts,
+    (d) keep checking after an error when the same evaluator is reused, (e) put the depth limit exactly where configured"""
     k = w.get('kind')
     repro = False
-    detail = ''
+    notes = []
     cases = []
-    if k == 'ticks':
-        P = w.get('period', 1000)
-        L = w.get('limit') or 2500
-        L = min(int(L), 20000) if isinstance(L, int) else 2500
-        prog = 'def f():\n  for i in range(1000000):\n    pass\nf()'
-        cases = [{'kind': 'eval', 'program': prog, 'max_ticks': L}]
-        res = rp.run(cases, 'dev')[0]
-        t = res.get('ticks', 0)
-        if 'err' not in res or 'panic' in res:
+    P = 1000
+    loop = lambda n: f'def f():\n  n = 0\n  for i in range({n}):\n    n += 1\n  return n\nf()'
+    if k in ('ticks', 'limits'):
+        budgets = [1500, 2000, 2001, 2500, 2999, 3000, 3001]
+        cases = []
+        for L in budgets:
+            cases.append({'kind': 'eval', 'program': loop(L - 200), 'max_ticks': L})                       # within budget: must succeed
+            cases.append({'kind': 'eval', 'program': loop(1000000), 'max_ticks': L, 'then': loop(200000)})    # far beyond: must fail, and fail again at once on reuse
+        res = rp.run(cases, 'dev')
+        for i, L in enumerate(budgets):
+            ok_run, bad_run = res[2 * i], res[2 * i + 1]
+            if ok_run.get('ok') != str(L - 200):
+                repro = True
+                notes.append(f'budget {L}: a loop of {L - 200} iterations (within budget) did not complete: {str(ok_run)[:160]}')
+            elif not (L - 200 <= ok_run.get('ticks', -1) <= L - 200 + 5):
+                repro = True
+                notes.append(f'budget {L}: loop of {L - 200} iterations reported {ok_run.get("ticks")} ticks')
+            t = bad_run.get('ticks', 0)
+            if 'err' not in bad_run or 'panic' in bad_run:
+                repro = True
+                notes.append(f'budget {L}: a loop of 10^6 iterations did not fail: {str(bad_run)[:160]}')
+            elif not (L < t <= L + P):
+                repro = True
+                notes.append(f'budget {L}: failed at {t} ticks, outside ({L}, {L + P}]')
+            else:
+                t2 = bad_run.get('ticks_after', 0)
+                then = bad_run.get('then', {})
+                if 'err' not in then:
+                    repro = True
+                    notes.append(f'budget {L}: reuse after the error ran a 200000-iteration loop to completion: {str(then)[:120]}')
+                elif t2 - t > P + 5:
+                    repro = True
+                    notes.append(f'budget {L}: on reuse after the error the evaluator ran {t2 - t} more ticks before failing again (check period {P})')
+        # determinism of the reported count
+        r2 = rp.run([{'kind': 'eval', 'program': loop(3456)}, {'kind': 'eval', 'program': loop(3456)}], 'dev')
+        if r2[0].get('ticks') != r2[1].get('ticks') or not (3456 <= r2[0].get('ticks', 0) <= 3460):
             repro = True
-            detail = f'loop of 10^6 iterations under a budget of {L} did not fail: {res}'
-        elif not (L < t <= L + P):
-            repro = True
-            detail = f'budget {L}: failed at {t} ticks, outside ({L}, {L + P}]'
-        # determinism of the count
-        res2 = rp.run([{'kind': 'eval', 'program': 'def f():\n  for i in range(3456):\n    pass\nf()'}], 'dev')[0]
-        if res2.get('ticks') not in (3456, 3457, 3458):
-            repro = True
-            detail += f' tick count of a 3456-iteration loop is {res2.get("ticks")}'
+            notes.append(f'tick count of a 3456-iteration loop: {r2[0].get("ticks")} / {r2[1].get("ticks")}')
     elif k == 'depth':
         prog = 'def f(n):\n  if n == 0:\n    return 0\n  return 1 + f(n - 1)\n'
-        res = rp.run([{'kind': 'eval', 'program': prog + 'f(5)', 'max_callstack': 8, 'dialect': 'extended'},
-                      {'kind': 'eval', 'program': prog + 'f(20)', 'max_callstack': 8, 'then': 'f(3)', 'dialect': 'extended'}], 'dev')
-        if res[0].get('ok') != '5':
+        D = 10
+        cases = [{'kind': 'eval', 'program': prog + f'f({D - 2})', 'max_callstack': D, 'dialect': 'extended'},
+                 {'kind': 'eval', 'program': prog + f'f({D - 1})', 'max_callstack': D, 'then': 'f(3)', 'dialect': 'extended'},
+                 {'kind': 'eval', 'program': prog + 'f(200)', 'max_callstack': D, 'then': f'f({D - 2})', 'dialect': 'extended'}]
+        res = rp.run(cases, 'dev')
+        if res[0].get('ok') != str(D - 2):
             repro = True
-            detail = f'depth 5 under limit 8 failed: {res[0]}'
+            notes.append(f'call depth exactly at the limit {D} failed: {str(res[0])[:160]}')
         if 'err' not in res[1] or 'overflow' not in res[1].get('err', '').lower():
             repro = True
-            detail += f' depth 20 under limit 8 did not overflow cleanly: {res[1]}'
+            notes.append(f'call depth {D + 1} under limit {D} did not overflow cleanly: {str(res[1])[:160]}')
         elif res[1].get('then', {}).get('ok') != '3':
             repro = True
-            detail += f' evaluator not reusable after stack overflow: {res[1].get("then")}'
-        cases = ['recursion under max_callstack=8']
-    return {'reproduced': repro, 'role': f'{k}: {w.get("what", "")}', 'detail': detail or 'native run within limits behaves as specified', 'cases': cases}
+            notes.append(f'evaluator not reusable after stack overflow: {res[1].get("then")}')
+        if res[2].get('then', {}).get('ok') != str(D - 2):
+            repro = True
+            notes.append(f'after a deep overflow the full depth is no longer available (pop skipped?): {str(res[2].get("then"))[:120]}')
+    return {'reproduced': repro, 'role': f'{k}: {w.get("what", "")}', 'detail': '; '.join(notes) or 'native runs under limits behave as specified', 'cases': cases[:3]}
